@@ -41,6 +41,7 @@ func c10Scenario(p c10Params) Scenario {
 	var after *callRes
 	var peer *Peer
 	var cend *vs.End
+	var readAtUnmount int
 	body := func() {
 		resetClientGlobals()
 		ce, se := vs.Pipe("clnt", "peer")
@@ -83,8 +84,13 @@ func c10Scenario(p c10Params) Scenario {
 			late = &callRes{spec: callSpec{"stat", 77}}
 			vs.Go("caller", func() { late = doCall(c, callSpec{"stat", 77}) })
 		}
+		readAtUnmount = -1
 		if p.Fault == "unmount" {
-			vs.Go("unmounter", func() { c.Unmount() })
+			vs.Go("unmounter", func() {
+				// what the client's reader had taken off the connection when the failure began
+				readAtUnmount = ce.ReadOffset()
+				c.Unmount()
+			})
 		}
 		vs.Idle()
 		vs.Window(false)
@@ -127,6 +133,13 @@ func c10Scenario(p c10Params) Scenario {
 			case "unmount", "writefail", "peerclose":
 				// the reply may or may not have been read before the client itself tore the
 				// connection down (a failed write closes the socket, discarding unread replies): either outcome is fine, but success must be the real reply
+				if p.Fault == "unmount" && complete && readAtUnmount >= 0 && end <= readAtUnmount {
+					// ... unless the reader already held the complete reply when Unmount began
+					if msg := r.verify("ok", p.Dotu, nil); msg != "" {
+						return &Viol{Sig: "C10/complete-reply-not-delivered/unmount", Msg: fmt.Sprintf("call %s fid %d: the client's reader had taken its complete reply off the connection (%d of the %d bytes read) before Unmount began, but the call returned: %s", r.spec.Kind, r.spec.Fid, end, readAtUnmount, msg), Detail: detail}
+					}
+					continue
+				}
 				if r.err == nil {
 					if msg := r.verify("ok", p.Dotu, nil); msg != "" {
 						return &Viol{Sig: "C10/wrong-result-after-failure", Msg: fmt.Sprintf("call %s fid %d: %s", r.spec.Kind, r.spec.Fid, msg), Detail: detail}
@@ -226,6 +239,7 @@ func c10Scenarios(tier string) []Scenario {
 			ud = D + 2 // the writer-vs-recycled-request crash needed three deviations
 		}
 		out = append(out, c10Scenario(c10Params{Calls: two, Fault: "unmount", Late: lateC, Dotu: lateC, P: ud}))
+		out = append(out, c10Scenario(c10Params{Calls: two, Fault: "unmount", OneWrite: true, Late: lateC, Dotu: !lateC, P: D + 1}))
 		out = append(out, c10Scenario(c10Params{Calls: three, Fault: "peerclose", Late: lateC, P: D + 1}))
 		out = append(out, c10Scenario(c10Params{Calls: nil, Fault: "cut", At: 0, Late: lateC, P: D + 2}))
 		out = append(out, c10Scenario(c10Params{Calls: three[:1], Fault: "cut", At: 0, Late: lateC, Dotu: true, P: D + 2}))
@@ -244,5 +258,5 @@ func init() {
 		Technique: "fault enumeration crossed with stateless model checking of the real client under the controlled scheduler; hangs decided at quiescence",
 		Rule:      "0-3 (thorough 4) outstanding calls plus an optional caller entering Rpc during the failure; faults: server-to-client stream cut after every byte offset of the scripted reply stream, client writes failing at 10 offsets inside the first requests, garbage / undersize / oversize / unknown-tag frames placed before, between and after complete replies (own segment and same segment), Unmount from another goroutine, peer closing; the frame faults, Unmount and peer close also while the client's writer is blocked inside Write (peer stopped reading after the first request); every schedule with at most D deviations from the default scheduler (delay bounding; quick D=1-3 by fault kind, thorough D=2-4); afterwards one more call. distinct = distinct per-object operation orders",
 		Assumptions: []string{"'within bounded time' is decided as: no reachable quiescent state in which a caller is blocked", "transport: a cut delivers exactly the bytes before the offset, then EOF"},
-		Scenarios:   c10Scenarios, QuickS: 110, ThoroughS: 1500})
+		Scenarios:   c10Scenarios, QuickS: 180, ThoroughS: 1500})
 }
